@@ -10,6 +10,8 @@
   (known finding F20); the model answers `ub` there and the full statement "no `ub` for any input" is FALSE:
   `full_statement_fails` exhibits the witness.
 -/
+import Mb2.Props.FnsMisc
+import Mb2.Props.FnsLinked
 import Mb2.Props.FnsCast
 import Mb2.Props.FnsFb
 import Mb2.Props.FnsElfIter
